@@ -142,6 +142,8 @@ def cmd_run(props, jobs=6):
         print("%-5s %-40s %s  %s" % (prop, name, "caught" if ok else "MISSED", msg))
         bad += 0 if ok else 1
     print("%d mutants, %d missed" % (len(results), bad))
+    for k in range(jobs):
+        shutil.rmtree(os.path.join(VERIF, ".cache", "mutslots", str(k)), ignore_errors=True)
     if not bad and not props:
         # reference tree for the thorough tier's self-test (lib/engine.py selftest): on this tree every control is reported
         sys.path.insert(0, VERIF)
@@ -216,6 +218,9 @@ if __name__ == "__main__":
         with ThreadPoolExecutor(max_workers=jobs) as ex:
             bad = sum(ex.map(work, enumerate([names[k::jobs] for k in range(jobs)])))
         print("%d refactors, %d with false alarms" % (len(names), bad))
+        # the per-worker extraction caches hold one compiled copy per variant: remove them (disk is limited)
+        for k in range(jobs):
+            shutil.rmtree(os.path.join(VERIF, ".cache", "mutslots", "r%d" % k if jobs > 1 else "r"), ignore_errors=True)
         sys.exit(1 if bad else 0)
     elif a[0] == "verify":
         # re-confirm that every stored mutant still applies and compiles (sequential: one shared target dir)
